@@ -28,8 +28,8 @@ LITS = {
 
 def insert_cases():
     for ty, kind in COLTYPES.items():
-        for constraint in ("", " not null", " primary key"):
-            if constraint == " primary key" and ty in ("double", "boolean", "decimal(10,2)"):
+        for constraint in ("", " not null", " primary key", "table-level primary key"):
+            if "primary key" in constraint and ty in ("double", "boolean", "decimal(10,2)"):
                 continue
             for lit in LITS:
                 yield {"type": ty, "constraint": constraint.strip(), "source": f"values ({lit})", "lit": lit}
@@ -40,7 +40,8 @@ def insert_cases():
 
 def insert_script(c, engine):
     ty, cons = c["type"], c["constraint"]
-    steps = [{"sql": f"create table t(x {ty}{' ' + cons if cons else ''}, y int)"},
+    ddl = f"create table t(x {ty}, y int, primary key(x))" if cons.startswith("table-level") else f"create table t(x {ty}{' ' + cons if cons else ''}, y int)"
+    steps = [{"sql": ddl},
              {"sql": "create table src(p bigint, q int)"}, {"sql": "insert into src values (3000000000, null)"}]
     if c["source"].startswith("values"):
         steps.append({"sql": f"insert into t values ({c['lit']}, 7)"})
